@@ -61,15 +61,31 @@ type subject struct {
 	views   []hackpadfs.FS // invariants are evaluated on each of these
 	store   *kvstore.Store // white-box keys (kvplain)
 	rootMut bool           // whether removing/renaming "." is generated
+	elems   []string       // path elements seen so far
+	dyn     []string       // closure over elems when it exceeds the default alphabet
 }
 
 var closureAB = ops.Closure([]string{"a", "ab", "b"}, 4)
 
 func (s *subject) closure() []string {
+	if s.dyn != nil {
+		return s.dyn
+	}
 	if s.names != nil {
 		return closureAB
 	}
 	return closure
+}
+
+// observe extends the closure by path elements outside the default alphabet (per-case exotic alphabets, replayed histories).
+func (s *subject) observe(paths ...string) {
+	el := gen.Elements(append(append([]string{}, s.elems...), paths...)...)
+	if len(el) != len(s.elems) {
+		s.elems = el
+		if len(el) > len(gen.Names) {
+			s.dyn = ops.Closure(el, 4)
+		}
+	}
 }
 
 func (s *subject) alphabet() []string {
@@ -359,6 +375,7 @@ func (m *machine) tree() gen.Tree {
 
 func (m *machine) step(op ops.Op, situation string) (string, string) {
 	base := fmt.Sprintf("C03/%s %s", m.s.kind, situation)
+	m.s.observe(op.P, op.P2)
 	var res ops.Res
 	if strings.HasPrefix(op.K, "h") {
 		res = m.handleStep(op)
@@ -385,6 +402,12 @@ func (m *machine) step(op ops.Op, situation string) (string, string) {
 func run(t *testing.T, kind string) {
 	vf.Check(t, kind, func(rt *rapid.T, rec *vf.Rec) {
 		m := &machine{s: newSubject(kind)}
+		if m.s.names == nil {
+			if names := gen.Alphabet(rt); names[1] != "ab" {
+				m.s.names = names
+				rec.Class("exotic-alphabet")
+			}
+		}
 		rt.Repeat(map[string]func(*rapid.T){
 			"step": func(rt *rapid.T) {
 				tr := m.tree()
